@@ -1,4 +1,4 @@
-import Oracle.Core
+import Oracle.SpecTable
 
 def main : IO UInt32 :=
-  Oracle.run (Oracle.mkTable Gen.table) {}
+  Oracle.run (Oracle.mkTable Gen.table) Oracle.specTable
